@@ -572,33 +572,33 @@ theorem lookupKV_mem (k : String) : ∀ (ks : List String) (xs : List Val) (v : 
     · simp at h; simp [h]
     · exact List.mem_cons_of_mem _ (lookupKV_mem k as xs v h)
 
-theorem lookupF_mem (ci : Bool) (f : Field) : ∀ (ks : List String) (xs : List Val) (v : Val),
-    lookupF ci f ks xs = some v → v ∈ xs
+theorem lookupF_mem (f : Field) : ∀ (ks : List String) (xs : List Val) (v : Val),
+    lookupF f ks xs = some v → v ∈ xs
   | [], _, v, h => by simp [lookupF] at h
   | _ :: _, [], v, h => by simp [lookupF] at h
   | a :: as, x :: xs, v, h => by
     simp only [lookupF] at h
     split at h
     · simp at h; simp [h]
-    · exact List.mem_cons_of_mem _ (lookupF_mem ci f as xs v h)
+    · exact List.mem_cons_of_mem _ (lookupF_mem f as xs v h)
 
 /-! ### parse_data -/
 
-theorem fieldsFF_fr (rec : Ty → Val → Comp) (ro : ROpts) (ci : Bool) (A : List Nat) (ks : List String) (xs : List Val)
+theorem fieldsFF_fr (rec : Ty → Val → Comp) (ro : ROpts) (A : List Nat) (ks : List String) (xs : List Val)
     (hx : ∀ v ∈ xs, ∀ i ∈ v.mutIds, i ∈ A)
     (hrec : ∀ t v, (∀ i ∈ v.mutIds, i ∈ A) → ∀ s, Fr A s (rec t v s).2 (resIds (rec t v s).1))
     (hro : ∀ i ∈ ro.opqIds, i ∈ A)
     (fields : List Field) (hB : ∀ f ∈ fields, ∀ i ∈ f.dflt.opqIds, i ∈ A) (s : St) :
-    Fr A s (fieldsFF rec ro ci ks xs fields s).2 (resIdsKV (fieldsFF rec ro ci ks xs fields s).1) := by
+    Fr A s (fieldsFF rec ro ks xs fields s).2 (resIdsKV (fieldsFF rec ro ks xs fields s).1) := by
   induction fields generalizing s with
   | nil => exact Fr.refl (by simp [fieldsFF, resIdsKV, mutIdsL])
   | cons f fs ih =>
     have ih' := ih (fun g hg => hB g (List.mem_cons_of_mem _ hg))
     simp only [fieldsFF]
-    cases hl : lookupF ci f ks xs with
+    cases hl : lookupF f ks xs with
     | some v =>
       simp only
-      have h1 := hrec f.ty v (hx v (lookupF_mem _ _ _ _ _ hl)) s
+      have h1 := hrec f.ty v (hx v (lookupF_mem _ _ _ _ hl)) s
       cases hr : rec f.ty v s with
       | mk r s1 =>
         rw [hr] at h1
@@ -607,7 +607,7 @@ theorem fieldsFF_fr (rec : Ty → Val → Comp) (ro : ROpts) (ci : Bool) (A : Li
         | ok v' =>
           simp only
           have h2 := ih' s1
-          cases hr2 : fieldsFF rec ro ci ks xs fs s1 with
+          cases hr2 : fieldsFF rec ro ks xs fs s1 with
           | mk r2 s2 =>
             rw [hr2] at h2
             cases r2 with
@@ -634,7 +634,7 @@ theorem fieldsFF_fr (rec : Ty → Val → Comp) (ro : ROpts) (ci : Bool) (A : Li
           | some d =>
             simp only
             have h2 := ih' s1
-            cases hr2 : fieldsFF rec ro ci ks xs fs s1 with
+            cases hr2 : fieldsFF rec ro ks xs fs s1 with
             | mk r2 s2 =>
               rw [hr2] at h2
               cases r2 with
@@ -645,10 +645,10 @@ theorem fieldsFF_fr (rec : Ty → Val → Comp) (ro : ROpts) (ci : Bool) (A : Li
                 intro i hi
                 simpa [resIdsKV, optIds, mutIdsL] using hi
 
-theorem dataLoop_fr (rec : Ty → Val → Comp) (ci : Bool) (A : List Nat) (fields : List Field)
+theorem dataLoop_fr (rec : Ty → Val → Comp) (A : List Nat) (fields : List Field)
     (hrec : ∀ t v, (∀ i ∈ v.mutIds, i ∈ A) → ∀ s, Fr A s (rec t v s).2 (resIds (rec t v s).1))
     (ks : List String) (xs : List Val) (hx : ∀ v ∈ xs, ∀ i ∈ v.mutIds, i ∈ A) (s : St) :
-    Fr A s (dataLoop rec ci fields ks xs s).2 (resIdsKV (dataLoop rec ci fields ks xs s).1) := by
+    Fr A s (dataLoop rec fields ks xs s).2 (resIdsKV (dataLoop rec fields ks xs s).1) := by
   induction xs generalizing ks s with
   | nil => cases ks <;> exact Fr.refl (by simp [dataLoop, resIdsKV, mutIdsL])
   | cons v vs ih =>
@@ -657,7 +657,7 @@ theorem dataLoop_fr (rec : Ty → Val → Comp) (ci : Bool) (A : List Nat) (fiel
     | cons k ks =>
       have ih' := ih ks (fun w hw => hx w (List.mem_cons_of_mem _ hw))
       simp only [dataLoop]
-      cases hfnd : fields.find? (fun f => keyMatches ci f k) with
+      cases hfnd : fields.find? (fun f => keyMatches f k) with
       | none => exact ih' s
       | some f =>
         simp only
@@ -670,7 +670,7 @@ theorem dataLoop_fr (rec : Ty → Val → Comp) (ci : Bool) (A : List Nat) (fiel
           | ok v' =>
             simp only
             have h2 := ih' s1
-            cases hr2 : dataLoop rec ci fields ks vs s1 with
+            cases hr2 : dataLoop rec fields ks vs s1 with
             | mk r2 s2 =>
               rw [hr2] at h2
               cases r2 with
@@ -726,8 +726,8 @@ theorem parseData_fr (rec : Ty → Val → Comp) (ro : ROpts) (A : List Nat) (d 
     Fr A s (parseData rec ro d ks xs s).2 (resIdsKV (parseData rec ro d ks xs s).1) := by
   simp only [parseData]
   split
-  · have h1 := dataLoop_fr rec d.ci A d.fields hrec ks xs hx s
-    cases hr : dataLoop rec d.ci d.fields ks xs s with
+  · have h1 := dataLoop_fr rec A d.fields hrec ks xs hx s
+    cases hr : dataLoop rec d.fields ks xs s with
     | mk r s1 =>
       rw [hr] at h1
       cases r with
@@ -745,7 +745,7 @@ theorem parseData_fr (rec : Ty → Val → Comp) (ro : ROpts) (A : List Nat) (d 
             refine (h1.seq h2).weaken (fun _ h => h) ?_
             intro i hi
             simpa [resIdsKV, mutIdsL_append] using hi
-  · exact fieldsFF_fr rec ro d.ci A ks xs hx hrec hro d.fields hB s
+  · exact fieldsFF_fr rec ro A ks xs hx hrec hro d.fields hB s
 
 /-! ### instances -/
 
